@@ -145,3 +145,22 @@ def rtap_chain(rng, maxwords=6):
     if L > 255:
         return None
     return bytes([0, rng.randrange(256)]) + struct.pack("<H", L) + hdr + bytes(body) + bytes(rng.randrange(256) for _ in range(slack))
+
+
+def rtap_antennas(rng, n, first=(1, 2, 3, 5)):
+    """word 0 with the given fields, then n per-antenna words (signal + antenna number) each in a fresh radiotap namespace;
+    None when it does not fit 255 bytes"""
+    w0 = sum(1 << b for b in first) | ((1 << 29) | (1 << 31) if n else 0)
+    words = [w0] + [((1 << 5) | (1 << 11) | (((1 << 29) | (1 << 31)) if i < n - 1 else 0)) for i in range(n)]
+    hdr = b"".join(struct.pack("<I", w) for w in words)
+    body = bytearray(); cur = 4 + len(hdr)
+    for b in first:
+        al, sz = AS[b]
+        while cur % al:
+            body.append(0); cur += 1
+        body.extend(bytes(rng.randrange(256) for _ in range(sz))); cur += sz
+    for i in range(n):
+        body.extend(bytes([rng.randrange(256), rng.randrange(256)])); cur += 2
+    if cur > 255:
+        return None
+    return bytes([0, 0]) + struct.pack("<H", cur) + hdr + bytes(body)
